@@ -64,6 +64,26 @@ CLAIMED = {
                     'iteration of run_event shows the woken thread exits.',
             'note': OPLEVEL + 'Trusted: Thread.join/cancel_events(C11)/LockingDeque(C16) contracts, fair scheduling.',
             'technique': TECH},
+    'C27': {'text': 'lock-discipline obligations on ThreadSafeAttribute: _is_atomic and the stored value are guarded by the '
+                    'attribute lock, every statement shape (read, assignment, augmented assignment) is one critical section, '
+                    'releases only by the owner, hold count 0 at the end, monitor invariant restored on release; where these '
+                    'hold every statement is atomic, so the result is that of a serial order under every interleaving.',
+            'note': 'Trusted: RLock as ghost (owner, hold count, epoch); statement shapes of Python; classification of source '
+                    'lines (decided under C28).', 'technique': TECH + '; lock-discipline (ownership) obligations'},
+    'C28': {'text': 'symbolic execution of __get__/__set__ gives the hold count as a function of the line classifier; a grammar '
+                    'of ~75 statement forms (regular languages of source lines) is decided against the classifier regex read '
+                    'from the real source by product automata, for lines of every length. Two forms (operator text inside a '
+                    'comment / string literal) fail on the current tree: known findings.',
+            'note': 'Trusted: re._parser tree = what re executes (witnesses replayed natively); single-line statements; '
+                    'three sample attribute names.', 'technique': TECH + '; regular-language obligations by automata'},
+    'C29': {'text': '__get__/__set__ executed on two symbolic instances sharing the class-level descriptor: assigning one '
+                    'never changes what the other reads; a never-assigned instance reads 0.',
+            'note': 'Trusted: descriptor protocol; instance.__dict__ as a per-instance str-keyed dict.', 'technique': TECH},
+    'C30': {'text': 'sequential contract of SingletonDecorator.__call__ (cached instance or a new one that becomes cached) '
+                    'plus ownership obligations: instance guarded_by(_lock), test-and-create in one critical section, lock '
+                    'released; the five documented singletons are bound to SingletonDecorator.',
+            'note': 'Trusted: RLock as ghost; constructor of the wrapped class returns a new object.',
+            'technique': TECH + '; lock-discipline (ownership) obligations'},
     'C31': {'text': 'on the over-capacity path a timed post must raise with no timer thread started, the tracked list '
                     'unchanged and no tracked run event touched.',
             'note': 'Trusted: Thread contract (an unstarted thread runs nothing), deque contract.', 'technique': TECH},
